@@ -289,8 +289,9 @@ end core
 
 /-- **K4 from C03 + C11 + C12**: on a link trace whose hosts' responders are projections of accepted histories of the reply model
 with the D5 purge, fed by C03's answer computation, every PTR question for the type of a registered service that does not list it
-is answered — PTR with TTL > 0, SRV, TXT and an address in one datagram — within `[a − 1000, a + 1200]`, by multicast or (QU)
-by unicast to the asker. -/
+is answered — PTR with TTL > 0; in the model's message also SRV, TXT and an address (`fresh_sent`), which K4 no longer demands per
+datagram because large replies are split into several packets — within `[a − 1000, a + 1200]`, by multicast or (QU) by unicast to
+the asker. -/
 theorem K4_of_responders (tr : Link.Trace) (endT : Int) (hR : Responders lower tr endT) : Link.K4 Link.Cfg.paper tr endT = true := by
   unfold Link.K4
   rw [List.all_eq_true]
@@ -334,7 +335,7 @@ theorem K4_of_responders (tr : Link.Trace) (endT : Int) (hR : Responders lower t
       · -- processed: answered from `e.t` on
         obtain ⟨sd, hsd, g1, g2, g3, g4, g5⟩ := fresh_sent lower hRun hx hev hf hq hs (by rw [hown, hN]) hty hk hreg
           (by omega) (hun e.t (Int.le_refl _)) hend
-        refine ⟨sd, hsd, ⟨⟨⟨⟨by rw [g1, hN], by omega⟩, by omega⟩, g4⟩, ?_⟩⟩
+        refine ⟨sd, hsd, ⟨⟨⟨⟨by rw [g1, hN], by omega⟩, by omega⟩, Link.posFull_pos g4⟩, ?_⟩⟩
         rcases g5 with g5 | ⟨g5, _, g6⟩
         · exact Or.inl g5
         · exact Or.inr ⟨g5, by rw [g6, hsrc]⟩
@@ -343,7 +344,7 @@ theorem K4_of_responders (tr : Link.Trace) (endT : Int) (hR : Responders lower t
           hRun.run.dup_source hRun.noTC hRun.purgeKeeps hx hev hsz hf
         obtain ⟨sd, hsd, g1, g2, g3, g4, g5⟩ := fresh_sent lower hRun hx0 hev0 hf0 hq hs (by rw [hown, hN]) hty hk hreg
           (by omega) (hun t0 hhi) (by omega)
-        refine ⟨sd, hsd, ⟨⟨⟨⟨by rw [g1, hN], by omega⟩, by omega⟩, g4⟩, ?_⟩⟩
+        refine ⟨sd, hsd, ⟨⟨⟨⟨by rw [g1, hN], by omega⟩, by omega⟩, Link.posFull_pos g4⟩, ?_⟩⟩
         rcases g5 with g5 | ⟨_, g6, _⟩
         · exact Or.inl g5
         · cases g6
